@@ -204,6 +204,22 @@ func buildRecord(c RecCase, setID uint, rng *rand.Rand) []byte {
 		return []byte(line + "\n" + "big: " + strings.Repeat("A", 3<<20) + "\n")
 	case "huge-time":
 		return []byte(strings.Join([]string{algo, strings.Repeat("1", 1<<20), param, saltF, digF}, ":") + "\n")
+	case "pad4096-extra-field", "pad4096-junk-tail", "pad65536-extra-field", "pad65536-junk-tail":
+		// the five fields fill exactly one read buffer of a common size (time stamp padded with leading zeros);
+		// the line goes on behind them: a reader that looks at the first N bytes only sees a complete record
+		n := 4096
+		if strings.HasPrefix(c.Shape, "pad65536") {
+			n = 65536
+		}
+		pad := n - len(line)
+		if pad < 0 {
+			pad = 0
+		}
+		padded := strings.Join([]string{algo, strings.Repeat("0", pad) + tm, param, saltF, digF}, ":")
+		if strings.HasSuffix(c.Shape, "extra-field") {
+			return []byte(padded + ":AAAA\n" + aux)
+		}
+		return []byte(padded + "!!!!\n" + aux)
 	case "only-newline":
 		return []byte("\n")
 	case "empty-file":
@@ -377,7 +393,7 @@ func runRecord(dir string, e *RecEdge, seed int64) {
 // ------------------------------------------------------------------ directories
 
 type DirCase struct {
-	A, B, Other, Sub, Tmp, Inv string
+	A, B, Other, Sub, Tmp, Inv, Names string
 }
 
 type DirEdge struct {
@@ -387,6 +403,13 @@ type DirEdge struct {
 	ListA   bool    `json:"lista"`
 	ListB   bool    `json:"listb"`
 	NamesOK bool    `json:"namesok"`
+}
+
+func bnameOf(e *DirEdge) string {
+	if e.Dir.Names == "dotted-neighbour" {
+		return "a.b"
+	}
+	return "b"
 }
 
 func runDir(dir string, e *DirEdge, seed int64, rec map[string]string) {
@@ -432,7 +455,11 @@ func runDir(dir string, e *DirEdge, seed int64, rec map[string]string) {
 			}
 		}
 		slot("a", e.Dir.A)
-		slot("b", e.Dir.B)
+		bname := "b"
+		if e.Dir.Names == "dotted-neighbour" {
+			bname = "a.b"
+		}
+		slot(bname, e.Dir.B)
 		switch e.Dir.Other {
 		case "x.txt", "a.user.bak", "noext", "a.USER":
 			ents = append(ents, ent{e.Dir.Other, sup, false})
@@ -497,18 +524,18 @@ func runDir(dir string, e *DirEdge, seed int64, rec map[string]string) {
 			lf, _ := d.ListFull()
 			if e.NamesOK || lerr == nil {
 				_, ga := l["a"]
-				_, gb := l["b"]
+				_, gb := l[bnameOf(e)]
 				if e.NamesOK && (ga != e.ListA || gb != e.ListB) {
 					violate("C16", "list:"+key, fmt.Sprintf("model a=%v b=%v, real a=%v b=%v (err %v)", e.ListA, e.ListB, ga, gb, lerr), e)
 				}
 				for n := range l {
-					if n != "a" && n != "b" && n != "d" {
+					if n != "a" && n != bnameOf(e) && n != "d" {
 						violate("C03", "invalid-name-listed:"+e.Dir.Inv+e.Dir.Other+e.Dir.Sub, fmt.Sprintf("list shows %q", n), e)
 					}
 				}
 			}
 			for n, f := range lf {
-				if n != "a" && n != "b" && n != "d" && f.IsValid {
+				if n != "a" && n != bnameOf(e) && n != "d" && f.IsValid {
 					violate("C03", "invalid-name-valid-in-list-full:"+n, "", e)
 				}
 			}
